@@ -449,6 +449,12 @@ class Interp:
 
     def float_binop(self, base, a, b):
         if a[0] == 'fconst' and b[0] == 'fconst':
+            # constant folding is exact when both constants are powers of two in the normal range (the result is again one)
+            ja, jb = log2_exact(a[1]), log2_exact(b[1])
+            if ja is not None and jb is not None and base in ('Mul', 'Div') and abs(ja) < 120 and abs(jb) < 120:
+                j = ja + jb if base == 'Mul' else ja - jb
+                if abs(j) < 120:
+                    return ('fconst', Fraction(2) ** j, a[2])
             raise Top('float constant arithmetic')
         if b[0] == 'fconst':
             j = log2_exact(b[1])
